@@ -6,8 +6,8 @@
 set -u
 PROP="$1"; N="$2"; shift 2
 CHECKS="${*:-$PROP}"
-SRC="/tmp/seed/$PROP/out/$N"
-DST="/verif/seeded/$PROP-$N"
+SRC="${SEEDROOT:-/tmp/seed}/$PROP/out/$N"
+DST="/verif/seeded/$PROP-${SEEDTAG:-}$N"
 WT=/tmp/evalwt
 export CARGO_NET_OFFLINE=true CARGO_TARGET_DIR=/tmp/evalwt-target
 [ -f "$SRC/patch.diff" ] || { echo "no patch in $SRC"; exit 2; }
